@@ -561,6 +561,105 @@ def kindKey : Nat → Option PChain
 
 def nKinds : Nat := 17
 
+/-! ### the parent validation of the interval / collection constructors -/
+
+/-- `Parent.sequence_type` of one level, as far as the constructors look at it -/
+inductive HTy where
+  | untyped | chromosome | chunk | other
+  deriving DecidableEq, Repr, Inhabited
+
+/-- the `location` attribute of a Parent object (where the level BELOW sits on it): absent; a location that has no
+    parent of its own (`Parent(id=…, location=SingleInterval(a, b, +))`); a location that points at a Parent, which may
+    carry a sequence (`Parent(location=SingleInterval(a, b, +, parent=P))`, the documented form) -/
+inductive HLoc where
+  | none
+  | bare
+  | ptr (pointeeHasSeq : Bool)
+  deriving DecidableEq, Repr, Inhabited
+
+/-- one Parent object of the chain `p, p.parent, p.parent.parent, …` -/
+structure HLevel where
+  ty : HTy
+  hasSeq : Bool         -- `.sequence` of THIS Parent object (non-empty)
+  loc : HLoc            -- `.location` of THIS Parent object
+  deriving DecidableEq, Repr, Inhabited
+
+/-- `Parent.has_ancestor_of_type(t)` (`include_self=True`) -/
+def hasAncestor (t : HTy) (chain : List HLevel) : Bool := chain.any (fun l => l.ty == t)
+
+/-- the parent checks of `AbstractInterval.liftover_location_to_seq_chunk_parent` (gene/interval.py:385-428) for a
+    parent-less location (what every constructor hands in):
+      None                                                      -> the location as it is
+      a SEQUENCE_CHUNK ancestor but no CHROMOSOME ancestor      -> NoSuchAncestorException
+      `not chunk_parent.sequence`                               -> NullSequenceException
+      `sequence_chunk.location_on_parent.parent_to_relative_location(location.reset_parent(chunk_parent.parent))`:
+         location_on_parent is None (the chunk's parent has no location, or the chunk has no parent)  -> AttributeError
+         it has no parent of its own while the lifted location has one                                 -> MismatchedParent
+         its parent carries a sequence and `chunk_parent.parent` does not (or vice versa)              -> MismatchedParent
+      no SEQUENCE_CHUNK ancestor                                -> `location.reset_parent(parent)`  -/
+def liftoverParents (chain : List HLevel) : V Unit :=
+  match chain with
+  | [] => pure ()
+  | _ =>
+    if hasAncestor .chunk chain then
+      if !hasAncestor .chromosome chain then raise .NoSuchAncestor
+      else
+        match chain.dropWhile (fun l => l.ty != .chunk) with
+        | [] => raise .NoSuchAncestor                 -- unreachable: `first_ancestor_of_type` after `has_ancestor_of_type`
+        | c :: above =>
+            if !c.hasSeq then raise .NullSequence
+            else
+              match above with
+              | [] => .error (.internal "AttributeError")
+              | a :: _ =>
+                  match a.loc with
+                  | .none => .error (.internal "AttributeError")
+                  | .bare => raise .MismatchedParent
+                  | .ptr pseq => if pseq != a.hasSeq then raise .MismatchedParent else pure ()
+    else pure ()
+
+/-- which constructor path: everything that has coordinates of its own (intervals, collections with children, an
+    AnnotationCollection with bounds) lifts its location; an AnnotationCollection without children and without bounds
+    has a location only when the first CHROMOSOME ancestor carries one (`if chrom_parent.location:`,
+    gene/collections.py:121-125) - otherwise it is `EmptyLocation()` and the parent is never looked at -/
+inductive HCls where
+  | located | emptyAnnot
+  deriving DecidableEq, Repr, Inhabited
+
+def hierModel (c : HCls) (chain : List HLevel) : V Unit :=
+  match c with
+  | .located => liftoverParents chain
+  | .emptyAnnot =>
+      match chain.dropWhile (fun l => l.ty != .chromosome) with
+      | [] => pure ()
+      | chrom :: _ => if chrom.loc == .none then pure () else liftoverParents chain
+
+/-- the hierarchy kinds of `impl_validate.hier_kind` as chains of Parent objects -/
+def hierKey : Nat → Option (List HLevel)
+  | 0 => some []
+  | 1 => some [⟨.chromosome, true, .none⟩]
+  | 2 => some [⟨.chromosome, false, .none⟩]
+  | 3 => some [⟨.untyped, true, .none⟩]
+  | 4 => some [⟨.untyped, false, .none⟩]
+  | 5 => some [⟨.other, true, .none⟩]
+  | 6 => some [⟨.chunk, true, .none⟩, ⟨.chromosome, false, .ptr false⟩]
+  | 7 => some [⟨.chunk, true, .none⟩]
+  | 8 => some [⟨.chunk, true, .none⟩, ⟨.other, false, .ptr false⟩]
+  | 9 => some [⟨.chunk, true, .none⟩, ⟨.untyped, false, .ptr false⟩]
+  | 10 => some [⟨.chunk, true, .none⟩, ⟨.chunk, false, .ptr false⟩]
+  | 11 => some [⟨.chunk, false, .none⟩, ⟨.chromosome, false, .ptr false⟩]
+  | 12 => some [⟨.chunk, true, .none⟩, ⟨.chromosome, false, .none⟩]
+  | 13 => some [⟨.chunk, true, .none⟩, ⟨.other, false, .ptr false⟩, ⟨.chromosome, false, .bare⟩]
+  | 14 => some [⟨.untyped, false, .bare⟩]
+  | 15 => some [⟨.chunk, true, .none⟩, ⟨.chromosome, false, .ptr false⟩]
+  | 16 => some [⟨.chunk, true, .none⟩, ⟨.chromosome, false, .ptr true⟩]
+  | 17 => some [⟨.chunk, false, .none⟩]
+  | 18 => some [⟨.chromosome, true, .none⟩, ⟨.chunk, true, .bare⟩]
+  | 19 => some [⟨.chunk, true, .none⟩, ⟨.chromosome, false, .bare⟩]
+  | _ => none
+
+def nHierKinds : Nat := 20
+
 /-! ### scan_windows -/
 
 /-- number of elements of `range(a, b, step)` for `step ≥ 1` -/
